@@ -25,7 +25,7 @@ RULE = ('Hypothesis-generated histories: 1-3 Transform2D and 1-3 Transform3D ins
 ASSUMPTIONS = [
     'NaN/inf rotations are not generated; membership of the stored rotation in [0, 360) is not asserted (for '
     'tiny negative floats x % 360.0 rounds to 360.0)',
-    'listeners do not modify transforms from inside callbacks',
+    'listeners read the property from inside their callback but do not modify transforms there',
 ]
 FINDINGS = {}
 EVENTS = ['on_position_change', 'on_rotation_change', 'on_scale_change']
@@ -61,13 +61,16 @@ def vec(dim, p):
 def run_case(case):
     facts = collections.Counter()
     log = []
+    current = {'t': None, 'prop': None}
 
     def make_listener(ix, mask):
         evs = [e for i, e in enumerate(EVENTS) if mask >> i & 1]
         ns = {'__events__': {e: e for e in evs}}
         for e in evs:
             def cb(self, *a, _e=e):
-                log.append((ix, _e, a))
+                # what does a read of the property return while the listeners are being told?
+                seen = getattr(current['t'], current['prop']) if current['t'] is not None else None
+                log.append((ix, _e, a, seen))
             ns[e] = cb
         return type('Lst%d' % ix, (), ns)(), set(evs)
 
@@ -126,6 +129,7 @@ def run_case(case):
         ti = tsel % len(transforms)
         t, dim = transforms[ti]
         del log[:]
+        current['t'], current['prop'] = t, prop
         if prop == 'rotation' and dim == 2:
             value = ROT2[p % len(ROT2)]
             if how == 'aug':
@@ -160,11 +164,14 @@ def run_case(case):
             viol('assignment_stores_the_very_object', step=step, transform=ti, prop=prop)
         event = 'on_%s_change' % prop
         want = sorted(subs[(ti, event)])
-        got = sorted(li for (li, e, a) in log)
-        if got != want or any(e != event for (_li, e, _a) in log):
+        got = sorted(li for (li, e, a, seen) in log)
+        if got != want or any(e != event for (_li, e, _a, _s) in log):
             viol('exactly_the_listeners_of_that_event_on_that_transform_are_notified_once', step=step,
-                 transform=ti, event=event, got=[(li, e) for (li, e, a) in log], expected=want)
-        for (li, e, a) in log:
+                 transform=ti, event=event, got=[(li, e) for (li, e, a, seen) in log], expected=want)
+        for (li, e, a, seen) in log:
+            if not (seen is read or (isinstance(read, (int, float)) and seen == read)):
+                viol('value_is_stored_before_the_listeners_are_notified', step=step, transform=ti, prop=prop,
+                     read_inside_callback=repr(seen), read_afterwards=repr(read))
             if len(a) != 1:
                 viol('callback_carries_one_argument', args=repr(a))
             arg = a[0]
